@@ -139,6 +139,8 @@ def pool_map(fn, items, procs=None, chunksize=None):
     procs = procs or min(16, os.cpu_count() or 4)
     if len(items) < 4 or procs == 1:
         return [fn(x) for x in items]
+    from . import runner
+    runner.scratch()                      # the scratch root exists before the workers are forked: they put their directories inside it
     ctx = mp.get_context("fork")
     with ctx.Pool(procs) as p:
         return p.map(fn, items, chunksize=chunksize or max(1, len(items) // (procs * 8)))
